@@ -384,7 +384,7 @@ def newKindCheck (k : NewK) (o : OpA) : Verdict :=
   match k with
   | .none => .ok
   | .mustMem => if o.mode != OP_MEM then .err E_op_mode else .ok
-  | .mustInt => if o.mode != OP_INT then .err E_op_mode else .ok
+  | .mustInt => if o.mode != OP_INT && o.mode != OP_UINT then .err E_op_mode else .ok
   | .mustRegMem => if o.mode != OP_REG && o.mode != OP_MEM then .err E_op_mode else .ok
 
 /-- positional checks made already by `MIR_new_insn_arr` -/
